@@ -4,9 +4,12 @@ package c18
 
 import (
 	"context"
+	"crypto/ecdsa"
+	stdx509 "crypto/x509"
 	"fmt"
 	"net/http"
 	"strings"
+	"time"
 
 	"verif/engine/enum"
 	"verif/ref/fe"
@@ -15,7 +18,12 @@ import (
 
 	ct "github.com/google/certificate-transparency-go"
 	"github.com/google/certificate-transparency-go/trillian/ctfe"
-	"github.com/google/certificate-transparency-go/x509util"
+	ctfepb "github.com/google/certificate-transparency-go/trillian/ctfe/configpb"
+	"github.com/google/trillian/crypto/keys"
+	"github.com/google/trillian/crypto/keys/der"
+	"github.com/google/trillian/crypto/keyspb"
+	"github.com/google/trillian/monitoring"
+	"google.golang.org/protobuf/types/known/anypb"
 )
 
 var shardKeys = []string{"p256-2", "p256-3", "p256-4", "p256-5", "p256-6"}
@@ -42,21 +50,13 @@ func (c *checker) endToEnd(sp space, ws []window) {
 	ro := &router{rt: map[string]http.RoundTripper{}}
 	fes := make([]*fe.FE, len(ws))
 	keys := make([]*pki.Key, len(ws))
-	cfg := clientConfig(ws)
+	cfg := c.clientConfigFile(ws)
 	for i, w := range ws {
-		vcfg, err := c.serverConfig(w)
-		if err != nil {
-			r.Violation("server-config refuses a well-formed window", fmt.Sprintf("ValidateLogConfig(%s): %v", w, err), cd(nil, "ValidateLogConfig", err.Error(), "accept"))
-			return
-		}
 		keys[i] = pki.LoadKey(shardKeys[i])
-		f, err := fe.New(fe.Config{LogID: int64(100 + i), Prefix: "log", Roots: [][]byte{c.fx.root.DER}, Signer: keys[i].Priv,
-			Client: reflog.New(int64(100 + i)), Clock: &fe.Clock{T: fixedNow},
-			Validation: func(pool *x509util.PEMCertPool) ctfe.CertValidationOpts {
-				return ctfe.NewCertValidationOpts(pool, fixedNow, false, false, vcfg.NotAfterStart, vcfg.NotAfterLimit, false, nil)
-			}})
+		f, err := c.setUpShard(int64(100+i), w, keys[i])
 		if err != nil {
-			panic(err)
+			r.Violation("server set-up refuses a well-formed window", fmt.Sprintf("SetUpInstance(%s): %v", w, err), cd(nil, "SetUpInstance", err.Error(), "accept"))
+			return
 		}
 		fes[i] = f
 		ro.rt[fmt.Sprintf("s%d.c18.example", i)] = fe.RoundTripper{F: f}
@@ -147,7 +147,7 @@ func (c *checker) endToEnd(sp space, ws []window) {
 				want := ws[j].inside(t)
 				routedHere := len(hits) == 1 && hits[0].host == fmt.Sprintf("s%d.c18.example", j)
 				if admitted != want {
-					r.Violation(fmt.Sprintf("e2e server-admission lib_inside=%v ref_inside=%v near=%s", admitted, want, ws[j].near(t)),
+					r.Violation(fmt.Sprintf("e2e server-admission lib_inside=%v ref_inside=%v", admitted, want),
 						fmt.Sprintf("front end of shard %d %s, NotAfter %s: HTTP %d %s", j, ws[j], t, resp.Status, strings.TrimSpace(string(resp.Body))),
 						cd(&t, "direct "+name+" to shard "+fmt.Sprint(j), fmt.Sprintf("HTTP %d", resp.Status), fmt.Sprint(want)))
 				} else if !admitted && (resp.Status != 400 || !strings.Contains(string(resp.Body), "NotAfter")) {
@@ -155,14 +155,40 @@ func (c *checker) endToEnd(sp space, ws []window) {
 						cd(&t, "direct "+name+" to shard "+fmt.Sprint(j), fmt.Sprintf("HTTP %d %s", resp.Status, resp.Body), "400 NotAfter"))
 				}
 				if admitted != routedHere {
-					r.Violation(fmt.Sprintf("e2e routing-vs-admission client_routes=%v server_admits=%v near=%s", routedHere, admitted, ws[j].near(t)),
+					r.Violation(fmt.Sprintf("e2e routing-vs-admission client_routes=%v server_admits=%v", routedHere, admitted),
 						fmt.Sprintf("shard %d %s of %v, %s NotAfter %s: client sent it here=%v, this server admits=%v", j, ws[j], descW(ws...), name, t, routedHere, admitted),
 						cd(&t, name, fmt.Sprintf("routed=%v admitted=%v", routedHere, admitted), fmt.Sprint(want)))
 				}
 			}
 		}
 	}
-	if r.WantSample() && len(ws) == 3 {
-		r.Sample(map[string]any{"phase": "e2e", "shards": descW(ws...), "checked": "every whole-second instant as certificate and precertificate: one request, to the reference shard, admitted, SCT from that shard; direct submission to each shard admitted <=> routed there"})
-	}
 }
+
+// setUpShard builds the front end of one shard the way ct_server does: the
+// LogConfig proto (with the shard's not_after_start / not_after_limit) goes
+// through ValidateLogConfig and the real SetUpInstance, so the window reaches
+// ValidateChain through the production wiring. The backend is ref/reflog.
+func (c *checker) setUpShard(logID int64, w window, k *pki.Key) (*fe.FE, error) {
+	priv, err := stdx509.MarshalECPrivateKey(k.Priv.(*ecdsa.PrivateKey))
+	if err != nil {
+		panic(err)
+	}
+	pk, err := anypb.New(&keyspb.PrivateKey{Der: priv})
+	if err != nil {
+		panic(err)
+	}
+	cfg := &ctfepb.LogConfig{LogId: logID, Prefix: "log", RootsPemFile: []string{c.rootsPEM}, PrivateKey: pk,
+		PublicKey: &keyspb.PublicKey{Der: k.SPKI}, NotAfterStart: w.start.pb(), NotAfterLimit: w.limit.pb()}
+	vcfg, err := ctfe.ValidateLogConfig(cfg)
+	if err != nil {
+		return nil, fmt.Errorf("ValidateLogConfig: %v", err)
+	}
+	inst, err := ctfe.SetUpInstance(context.Background(), ctfe.InstanceOptions{Validated: vcfg, Client: reflog.New(logID), Deadline: time.Hour,
+		MetricFactory: monitoring.InertMetricFactory{}, RequestLog: new(ctfe.DefaultRequestLog)})
+	if err != nil {
+		return nil, err
+	}
+	return &fe.FE{Inst: inst, Log: &fe.ReqLog{}, Prefix: "/log"}, nil
+}
+
+func init() { keys.RegisterHandler(&keyspb.PrivateKey{}, der.FromProto) }
